@@ -445,6 +445,31 @@ def r9_put_get_same_offset(ctx, rule="C18.R9"):
     ctx.require(rule, 3)
 
 
+def r10_get_tolerates_short_record(ctx, rule="C18.R10"):
+    """`a record PUT is what GET of the same record number returns`, writer / reader agreement on the
+    LENGTH: put_record writes the bytes it is given (the FIELD widths, which may add up to less
+    than the record length) without padding them to rec_len, so the last record of the file can be
+    shorter than rec_len on disk.  As long as the writer does not pad, the reader must accept a short
+    read (no read_exact, no comparison of the number of bytes read that ends in an error)."""
+    prog = ctx.prog
+    put = prog.method("FileInfo", "put_record")
+    get = prog.method("FileInfo", "get_record")
+    if put is None or get is None:
+        raise CheckError("anchor FileInfo::put_record / get_record")
+    pads = any((t.get("cpath") or "").split("::")[-1] in ("resize", "extend", "extend_from_slice", "set_len")
+               for _b, t in put.body.calls())
+    exact = [t.get("ln") for _b, t in get.body.calls() if (t.get("cpath") or "").split("::")[-1] == "read_exact"]
+    reads = [t.get("ln") for _b, t in get.body.calls() if (t.get("cpath") or "").split("::")[-1] in ("read", "read_exact", "read_to_end")]
+    if not reads:
+        raise CheckError("%s: get_record does not read" % rule)
+    ctx.decide(pads or not exact, rule, rule + ":get_record:accepts-short-record", get.loc,
+               "the reader accepts fewer than rec_len bytes (the writer does not pad)",
+               "get_record demands exactly rec_len bytes (read_exact, line %s) while put_record writes only the "
+               "bytes of the FIELD list without padding: GET of the last record of a file whose FIELD widths add "
+               "up to less than LEN fails with Input past end of file (62)" % exact)
+    ctx.require(rule, 1)
+
+
 def run(ctx):
     common.install(ctx)
     r1_open_guard(ctx)
@@ -456,3 +481,4 @@ def run(ctx):
     r7_record_layout(ctx)
     r8_separator_classes(ctx)
     r9_put_get_same_offset(ctx)
+    r10_get_tolerates_short_record(ctx)
